@@ -159,7 +159,7 @@ def c11_decls(tier):
         d = EnumDecl(r, [v0, Variant("V1"), Variant("V2", lit=base_vals[2][1])], tag={"family": "C11d-cfg_attr-rename"})
         out.append(d)
     # (e) the enum's own NAME: single letters that generated generics use, names of prelude/core items, lower-case names
-    for nm in ["B", "F", "T", "I", "R", "N", "Item", "Iter", "Names", "IntoIter", "Option", "Some", "None", "Ok", "Err", "Result", "Iterator",
+    for nm in [c for c in "ACDEGHJKLMOPQSUVWXYZ"] + ["Acc", "Fn", "Pred", "Idx", "Rhs", "Out", "St"] + ["B", "F", "T", "I", "R", "N", "Item", "Iter", "Names", "IntoIter", "Option", "Some", "None", "Ok", "Err", "Result", "Iterator",
                "From", "Into", "TryFrom", "FromStr", "Copy", "Sized", "Debug", "Display", "FnMut", "Map", "Copied", "RangeInclusive",
                "MaybeUninit", "Formatter", "E0", "value", "r", "x", "s", "it", "core", "std", "Self_", "r#type"]:
         for r, vals in (("i8", ["-2", None, None]), ("u16", ["1", "2", "9"])):
@@ -168,6 +168,59 @@ def c11_decls(tier):
             d.full_config = True
             out.append(d)
     return out
+
+
+MACRO_FORMS = [
+    # (label, macro definition + invocation producing `pub enum E` with variants A, B, C (values 1, 2, 3 or 1, 2, 9) in module scope)
+    ("repr-fragment", "macro_rules! mk { ($r:ident) => { #[derive(Clone, Copy, EnumTools)] #[enum_tools(%(cfg)s)] #[repr($r)] pub enum E { A = 1, B = 2, C = %(c)s } } } mk!(%(repr)s);"),
+    ("name-fragment", "macro_rules! mk { ($n:ident) => { #[derive(Clone, Copy, EnumTools)] #[enum_tools(%(cfg)s)] #[repr(%(repr)s)] pub enum $n { A = 1, B = 2, C = %(c)s } } } mk!(E);"),
+    ("variants-fragment", "macro_rules! mk { ($($v:ident),*) => { #[derive(Clone, Copy, EnumTools)] #[enum_tools(%(cfg)s)] #[repr(%(repr)s)] pub enum E { $($v),* } } } mk!(A, B, C);"),
+    ("item-passthrough", "macro_rules! pass { ($i:item) => { $i } } pass! { #[derive(Clone, Copy, EnumTools)] #[enum_tools(%(cfg)s)] #[repr(%(repr)s)] pub enum E { A = 1, B = 2, C = %(c)s } }"),
+    ("tt-passthrough", "macro_rules! pass { ($($t:tt)*) => { $($t)* } } pass! { #[derive(Clone, Copy, EnumTools)] #[enum_tools(%(cfg)s)] #[repr(%(repr)s)] pub enum E { A = 1, B = 2, C = %(c)s } }"),
+    ("attrs-fragment", "macro_rules! mk { ($(#[$m:meta])* $v:vis enum $n:ident) => { $(#[$m])* $v enum $n { A = 1, B = 2, C = %(c)s } } } mk!(#[derive(Clone, Copy, EnumTools)] #[enum_tools(%(cfg)s)] #[repr(%(repr)s)] pub enum E);"),
+    ("all-fragments", "macro_rules! mk { ($n:ident : $r:ident { $($v:ident = $d:tt),* }) => { #[derive(Clone, Copy, EnumTools)] #[enum_tools(%(cfg)s)] #[repr($r)] pub enum $n { $($v = $d),* } } } mk!(E : %(repr)s { A = 1, B = 2, C = %(c)s });"),
+    ("nested-macro", "macro_rules! inner { ($r:ident, $n:ident) => { #[derive(Clone, Copy, EnumTools)] #[enum_tools(%(cfg)s)] #[repr($r)] pub enum $n { A = 1, B = 2, C = %(c)s } } } macro_rules! outer { ($r:ident) => { inner!($r, E); } } outer!(%(repr)s);"),
+    ("rename-fragment", "macro_rules! mk { ($s:literal) => { #[derive(Clone, Copy, EnumTools)] #[enum_tools(%(cfg)s)] #[repr(%(repr)s)] pub enum E { #[enum_tools(rename = $s)] A = 1, B = 2, C = %(c)s } } } mk!(\"A\");"),
+]
+
+
+def macro_generated(res, tier):
+    """Declarations produced by the user's macro_rules! macros (identifiers, repr, variants and attributes arriving through macro
+    fragments carry other hygiene contexts than tokens written in place; seed T1-r7m1: `self` emitted with the span of the repr
+    token). One program: every form x shape x mode assignment in its own module, a few run-time assertions each."""
+    mods, calls = [], []
+    k = 0
+    for lab, form in MACRO_FORMS:
+        for repr_, c in (("i8", "3"), ("u64", "9")):
+            if lab == "variants-fragment" and c == "9":
+                continue
+            for ms in ({}, {"as_str": "table", "from_str": "table", "FromStr": "table", "iter": "table"},
+                       {"as_str": "match", "from_str": "match", "FromStr": "match", "iter": "next_and_back"}):
+                cfg = catalogue.full_config(c == "3" or lab == "variants-fragment", ms)
+                m = "m%d" % k
+                k += 1
+                body = form % {"cfg": cfg.attr_text(), "repr": repr_, "c": c}
+                mods.append("mod %s { use enum_tools::EnumTools; %s }" % (m, body))
+                last = 2 if lab == "variants-fragment" else int(c)
+                first = 0 if lab == "variants-fragment" else 1
+                calls.append("{ use %s::E; type R = %s; let v: Vec<R> = E::iter().map(|e| e as R).collect(); assert_eq!(v, vec![%d as R, %d as R, %d as R], \"%s\");"
+                             " assert_eq!(E::A.as_str(), \"A\"); assert_eq!(format!(\"{}/{:?}\", E::C, E::B), \"C/B\"); assert!(matches!(E::from_str(\"C\"), Some(E::C))); assert!(E::from_str(\"D\").is_none());"
+                             " assert!(matches!(E::B.next(), Some(E::C))); assert!(E::C.next().is_none()); assert!(matches!(E::B.next_back(), Some(E::A))); assert!(E::A.next_back().is_none());"
+                             " assert!(matches!(E::try_from(%d as R), Some(E::C))); assert!(E::try_from(100 as R).is_none()); assert_eq!(E::MIN as R, %d as R); assert_eq!(E::MAX as R, %d as R);"
+                             " assert_eq!(E::names().collect::<Vec<_>>(), vec![\"A\", \"B\", \"C\"]); assert_eq!(E::range(E::B, E::C).len(), 2); assert_eq!(\"B\".parse::<E>().map(|e| e as R), Ok(%d as R)); }"
+                             % (m, repr_, first, first + 1, last, m, last, first, last, first + 1))
+    src = "#![allow(warnings)]\n" + "\n".join(mods) + "\nfn main() {\n" + "\n".join("  " + x for x in calls) + "\n}\n"
+    ok, verdict, rc, so, se = e2.run_program(src)
+    res.states += len(mods)
+    res.transitions += len(mods) * 18
+    res.outcome("macro-generated-declarations", len(mods))
+    if not ok:
+        res.violation({"kind": "does-not-compile", "what": "declaration produced by a macro_rules! macro", "errors": [l for l in verdict.splitlines() if l.startswith("error")][:3]},
+                      {"rustc": verdict[-2500:]}, {"repro.rs": src})
+    elif rc != 0:
+        res.violation({"kind": "wrong-result", "what": "declaration produced by a macro_rules! macro", "stderr": se[-400:]}, {}, {"repro.rs": src})
+    else:
+        res.validated += len(mods)
 
 
 def size_limit_e1(res, tier):
@@ -219,6 +272,7 @@ def c11(tier):
         subs.append(s)
     explore(res, "%s/c11" % tier, subs, phases=["conv", "order", "iter", "str", "names", "range", "from_str"])
     size_limit_e1(res, tier)
+    macro_generated(res, tier)
     fam = {}
     for d in decls:
         fam[d.tag["family"]] = fam.get(d.tag["family"], 0) + 1
@@ -525,6 +579,26 @@ def c13_cases(tier):
     for holes in (False, True):
         bad.append(("range+table_inline-split:%s" % holes, attr_case(["#[enum_tools(range)]", "#[enum_tools(iter(mode = \"table_inline\"))]"], holes)))
         bad.append(("range-split-without-iter:%s" % holes, attr_case(["#[enum_tools(into)]", "#[enum_tools(range)]"], holes)))
+    # the same contradictions and a sample of every other rejection class on LARGER shapes (seed T3-r7m2: an explicit table_inline was
+    # rewritten to table for tables over 64 bytes before the range/table_inline conflict is checked)
+    def body(vals):
+        return ", ".join("V%d = %d" % (i, v) for i, v in enumerate(vals))
+    big_shapes = [("i64", list(range(-3, 9))), ("i64", [x for x in range(-3, 11) if x != 4]), ("u128", [0, 1, 2, 3, 4, 5, 9]), ("u128", list(range(6))),
+                  ("u8", list(range(70))), ("u8", [x for x in range(72) if x not in (30, 31)]), ("i16", list(range(-150, 150))),
+                  ("i16", [x for x in range(-150, 152) if x not in (0, 77)]), ("u16", [x for x in range(0, 60) if x % 3 != 0]), ("usize", list(range(20)))]
+    for rr, vals in big_shapes:
+        gap = (vals[-1] - vals[0] + 1 == len(vals))
+        sample_bad = ["iter(mode = \"table_inline\"), range", "range, iter(mode = \"table_inline\")", "range", "range, names",
+                      "iter(mode = \"inline\")", "as_str(mode = \"Table\")", "iter(vis = \"pub(super)\")", "iter, iter", "iter(bogus)", "Iter",
+                      "names(struct_name = 3)", "iter(mode = \"table_inline\", mode = \"table\")"]
+        if not gap:
+            sample_bad += ["iter(mode = \"range\")", "iter(mode = \"range\"), range"]
+        for inner in sample_bad:
+            bad.append(("big-shape:%s:%d:%s" % (rr, len(vals), inner),
+                        "#![allow(warnings)]\nuse enum_tools::EnumTools;\n#[derive(Clone, Copy, EnumTools)]\n#[enum_tools(%s)]\n#[repr(%s)]\npub enum E { %s }\n" % (inner, rr, body(vals))))
+        for inner in ["iter(mode = \"table_inline\")", "iter(mode = \"table\"), range", "iter, range"] + (["iter(mode = \"range\"), range"] if gap else []):
+            ok.append(("big-shape-ok:%s:%d:%s" % (rr, len(vals), inner),
+                       "#![allow(warnings)]\nuse enum_tools::EnumTools;\n#[derive(Clone, Copy, EnumTools)]\n#[enum_tools(%s)]\n#[repr(%s)]\npub enum E { %s }\n" % (inner, rr, body(vals))))
     # iter range mode on enums with holes
     hole_enums = ["A = 1, B = 3", "A = 0, B = 1, C = 3", "A = -2, B = 0", "A = 3, B = 1", "A = -32768, B = 32767", "A, B, C = 4", "A = 1, B, C = 4, D",
                   "A = 5, B = 7, C = 6, D = 9", "A = 0, B = 2, C = 1, D = 4"]
